@@ -39,7 +39,9 @@ func c36new() *c36world {
 	w.k = NewKeeper(cdc, sdk.ParamsKey, sdk.ParamsTKey, "gov", w.ak, pos)
 	w.keys = []string{"pos/MaxValidators", "pos/StakeMinimum", "gov/daoOwner"}
 	for _, key := range w.keys {
-		w.acl.SetOwner(key, c36people[v.Choice(3)])
+		if o := v.Choice(4); o < 3 {
+			w.acl.SetOwner(key, c36people[o])
+		} // o == 3: the parameter has no ACL entry at all — nobody owns it, nobody may change it
 	}
 	w.dao = c36people[v.Choice(3)]
 	params := types.Params{ACL: w.acl, DAOOwner: w.dao, Upgrade: types.Upgrade{}}
@@ -79,7 +81,8 @@ func VerifC36param() {
 		val = []byte(`"aabbccddeeff00112233445566778899aabbccdd"`)
 	}
 	res := w.k.ModifyParam(w.ctx, w.keys[ki], val, signer)
-	isOwner := signer.Equals(w.acl.GetOwner(w.keys[ki]))
+	owner := w.acl.GetOwner(w.keys[ki])
+	isOwner := owner != nil && signer.Equals(owner)
 	v.Assert(res.IsOK() == isOwner, "change-accepted-iff-signer-owns-that-parameter")
 	for j, key := range w.keys {
 		changed := !bytes.Equal(w.raw(key), before[j])
